@@ -124,14 +124,25 @@ func permutations(n int) [][]int {
 	return out
 }
 
-func (d dag) project() *types.Project {
+func (d dag) project() *types.Project { return d.projectWith(false) }
+
+// projectWith: with optDeps every service also has an optional dependency on a profile-disabled service and on a
+// service that does not exist (both legal: the walk ignores them, and must leave them where they are).
+func (d dag) projectWith(optDeps bool) *types.Project {
 	p := &types.Project{Name: "p", Services: types.Services{}}
+	if optDeps {
+		p.DisabledServices = types.Services{"zdis": {Name: "zdis", Image: "img", Profiles: []string{"off"}}}
+	}
 	for i := 0; i < d.n; i++ {
 		s := types.ServiceConfig{Name: svcNames[i], Image: "img"}
-		if len(d.dep[i]) > 0 {
+		if len(d.dep[i]) > 0 || optDeps {
 			s.DependsOn = types.DependsOnConfig{}
 			for _, j := range d.dep[i] {
 				s.DependsOn[svcNames[j]] = types.ServiceDependency{Condition: "service_started", Required: true}
+			}
+			if optDeps {
+				s.DependsOn["zdis"] = types.ServiceDependency{Condition: "service_started", Required: false}
+				s.DependsOn["zmiss"] = types.ServiceDependency{Condition: "service_started", Required: false}
 			}
 		}
 		p.Services[svcNames[i]] = s
@@ -145,12 +156,16 @@ type c13scn struct {
 	limit   int
 	roots   []int
 	errs    []int
+	optDeps bool // services also carry optional dependencies on a disabled and on a missing service
 }
 
 func (s c13scn) id() string {
 	dir := "fwd"
 	if s.reverse {
 		dir = "rev"
+	}
+	if s.optDeps {
+		dir += "+optdeps"
 	}
 	return fmt.Sprintf("%s/%s/lim%d/roots%v/errs%v", s.d.key, dir, s.limit, s.roots, s.errs)
 }
@@ -320,7 +335,7 @@ func (s c13scn) monitor(r *c13run) (string, string) {
 }
 
 func (s c13scn) setup() (func(), func(*vsched.Sched) string, *c13run, *types.Project) {
-	p := s.d.project()
+	p := s.d.projectWith(s.optDeps)
 	r := &c13run{log: &Log{Ev: make([]Ev, 0, 32)}}
 	errFor := map[string]error{}
 	for _, e := range s.errs {
@@ -395,6 +410,11 @@ func c13scenarios(quick bool) []c13scn {
 							out = append(out, c13scn{d: d, reverse: rev, limit: lim, roots: roots, errs: errs})
 						}
 					}
+				}
+				if n <= 3 {
+					// optional dependencies on a disabled and on a missing service: ignored by the walk, left in the project
+					out = append(out, c13scn{d: d, reverse: rev, limit: 0, optDeps: true})
+					out = append(out, c13scn{d: d, reverse: rev, limit: 1, errs: []int{0}, optDeps: true})
 				}
 			}
 		}
